@@ -27,9 +27,15 @@ def is_optional(t):
     return oracle.origin(t) is Union and type(None) in oracle.args(t)
 
 
-def table(ctx, spec, mod, funcs, live, stub, strat, text, src):
+def table(ctx, spec, mod, funcs, live, stub, strat, text, src, rw=None):
+    """rw: the configured type rewriter (None = none): a TRACED type appears as the rewriter leaves it (what the rewriters
+    do is C07's business); a SOURCE annotation is never rewritten"""
     if stub["syntax_error"] is not None:
         return  # C12 owns syntax (nested headers are already rewritten by the reader)
+    if rw is not None:
+        def _rw(T):
+            return None if T is None else rw.rewrite(T)
+        live = {key: (fn, f, {n: _rw(T) for n, T in at.items()}, _rw(rt), _rw(yt)) for key, (fn, f, at, rt, yt) in live.items()}
     ns = dict(vars(typing))
     ns.update(vars(mod))
     any_anno = any_traced = False
@@ -121,7 +127,7 @@ def table(ctx, spec, mod, funcs, live, stub, strat, text, src):
     ctx.label("positions-annotated-and-traced" if any_anno and any_traced else "positions-one-sided")
 
 
-def cli_path(ctx, funcs, strat, k, sc):
+def cli_path(ctx, funcs, strat, k, sc, rw_name="noop", disable=False):
     """the same decision table on the text printed by `monkeytype stub [--ignore-existing-annotations|--omit-existing-annotations]`
     for traces that went through a scratch SQLite database"""
     import importlib
@@ -131,14 +137,14 @@ def cli_path(ctx, funcs, strat, k, sc):
     for f_ in funcs:
         f_.pop("_annotate_receiver", None)
     name, path = sc.new_module(src, stem="mtv_sigcli")
-    spec = ["CLI", funcs, strat.name, k]
+    spec = ["CLI", funcs, strat.name, k, rw_name, disable]
     db = os.path.join(sc.dir, name + ".sqlite3")
     try:
         mod = importlib.import_module(name)
         traces, live = sigsynth.traces_for(mod, funcs, k)
         if not traces or sigsynth.uses_hostile(funcs):
             return
-        os.environ.update(MTV_DB=db, MTV_K=str(k), MTV_RW="noop")
+        os.environ.update(MTV_DB=db, MTV_K=str(k), MTV_RW=rw_name)
         os.environ.pop("MTV_ONLY", None)
         store = SQLiteStore.make_store(db)
         store.add(traces)
@@ -146,16 +152,17 @@ def cli_path(ctx, funcs, strat, k, sc):
         flag = {EAS.REPLICATE: [], EAS.IGNORE: ["--ignore-existing-annotations"], EAS.OMIT: ["--omit-existing-annotations"]}[strat]
         out, err = io.StringIO(), io.StringIO()
         try:
-            rc = cli.main(["-c", "fx_cfg:CONFIG", "stub"] + flag + [name], out, err)
+            rc = cli.main(["-c", "fx_cfg:CONFIG"] + (["--disable-type-rewriting"] if disable else []) + ["stub"] + flag + [name], out, err)
         except Exception as e:
             ctx.label("cli-crash:" + type(e).__name__)
             return
         text = out.getvalue()
         if rc != 0 or not text.strip():
             return ctx.fail("C13/cli-produced-no-stub", spec, f"rc={rc} {err.getvalue()[:300]}\n{src}")
-        ctx.case(spec, True, ["cli-path", "strategy:" + strat.name])
+        ctx.case(spec, True, ["cli-path", "strategy:" + strat.name, "cli-rewriter:" + rw_name, "cli-disable-type-rewriting=%s" % disable])
         stub = stubread.read_stub(text, vars(mod))
-        table(ctx, spec, mod, funcs, live, stub, strat, text, src)
+        from monkeytype.typing import DEFAULT_REWRITER
+        table(ctx, spec, mod, funcs, live, stub, strat, text, src, rw=DEFAULT_REWRITER if rw_name == "default" and not disable else None)
     finally:
         sc.drop(name, path)
         if os.path.exists(db):
@@ -188,17 +195,20 @@ def shard(ctx):
     sc = tracerun.Scratch("c13-")
     try:
         def factory(ctx):
-            @given(sigsynth.module(), st.sampled_from(list(EAS)), st.sampled_from([0, 0, 3]))
-            def test(funcs, strat, k):
-                c12.check_module(ctx, funcs, strat, k, sc, pid="C13", c13=table)
+            @given(sigsynth.module(), st.sampled_from(list(EAS)), st.sampled_from([0, 0, 3]), st.booleans())
+            def test(funcs, strat, k, rw):
+                from monkeytype.typing import DEFAULT_REWRITER
+                import functools
+                c12.check_module(ctx, funcs, strat, k, sc, pid="C13", c13=functools.partial(table, rw=DEFAULT_REWRITER) if rw else table,
+                                 rewriter=DEFAULT_REWRITER if rw else None)
             return test
         core.run_hypothesis(ctx, factory, 400 if q else 4000)
         exhaustive_matrix(ctx, sc)
 
         def factory2(ctx):
-            @given(sigsynth.module(), st.sampled_from(list(EAS)), st.sampled_from([0, 0, 3]))
-            def test(funcs, strat, k):
-                cli_path(ctx, funcs, strat, k, sc)
+            @given(sigsynth.module(), st.sampled_from(list(EAS)), st.sampled_from([0, 0, 3]), st.sampled_from(["noop", "default", "default"]), st.booleans())
+            def test(funcs, strat, k, rw_name, disable):
+                cli_path(ctx, funcs, strat, k, sc, rw_name, disable)
             return test
         core.run_hypothesis(ctx, factory2, 40 if q else 400, salt=3)
     finally:
@@ -213,7 +223,11 @@ def replay(ctx, case):
     sc = tracerun.Scratch("c13-")
     try:
         if case[0] == "CLI":
-            return cli_path(ctx, case[1], EAS[case[2]], case[3], sc)
-        c12.check_module(ctx, case[1], EAS[case[2]], case[3], sc, pid="C13", c13=table)
+            return cli_path(ctx, case[1], EAS[case[2]], case[3], sc, *(case[4:6] if len(case) > 5 else ()))
+        from monkeytype.typing import DEFAULT_REWRITER
+        import functools
+        rw = "rewriter:default" in case[4:]
+        c12.check_module(ctx, case[1], EAS[case[2]], case[3], sc, pid="C13", c13=functools.partial(table, rw=DEFAULT_REWRITER) if rw else table,
+                         rewriter=DEFAULT_REWRITER if rw else None)
     finally:
         sc.close()
